@@ -17,6 +17,7 @@ generated-constant obligation and the witnesses that document why the four fixes
 -/
 import RtcModel.Lemmas.Spsc
 import RtcModel.Lemmas.SpscTrack
+import RtcModel.Lemmas.SpscPipe
 
 namespace RtcModel.Theorems.C20
 open RtcModel.Spsc RtcModel.SpscTrack RtcModel.C20Word RtcModel.Generated
@@ -261,6 +262,70 @@ example :
        .prod 2 none, .prod 2 none, .prod 2 none, .prod 2 none, .cons false, .cons false, .cons false,
        .cons false, .cons false, .cons false, .cons false, .cons false, .cons false]
     s.recvd = [(0, 1)] ∧ s.rejected = [(2, 1)] ∧ s.droppedOld = [] := by
+  refine ⟨by decide, by decide, by decide⟩
+
+/-! ### the pipeline.rs queue pair (`SampleQueueSender` shared by reference / `SampleQueueReceiver`) -/
+
+/-- initial state of the pipeline pair: `sample_queue_channel(cap)` -/
+abbrev pinit (cap k : Nat) : St := St.init Variant.pipeCur cap (2 ^ k) 0
+
+/-- **pipe_invariant**: after ANY interleaving of the accesses of any number of producer threads
+sharing the one sender (`send`, `try_send`, release of their reference — the last release runs
+`Drop for SampleQueueSender`) and of the receiver (`recv`, `Drop for SampleQueueReceiver`): lock
+discipline and the ring invariant for the two lock holders. (Labels of the track-only machines —
+the track consumer and `stop()` — do not exist for this pair and are excluded.) -/
+theorem pipe_invariant (cap k : Nat) (h0 : 0 < cap) (h1 : 2 * cap ≤ 2 ^ k) (ls : List Label)
+    (hl : ∀ l ∈ ls, PipeLabel l) : PTInv (run (pinit cap k) ls) :=
+  run_PTInv _ ls hl (PTInv.init cap k h0 (by omega))
+
+/-- **pipe_multi_producer_safe**: slot safety and FIFO hand-out for the pipeline pair, any number
+of producer threads on the shared sender; mutual exclusion inside `push` and inside `pop`. -/
+theorem pipe_multi_producer_safe (cap k : Nat) (h0 : 0 < cap) (h1 : 2 * cap ≤ 2 ^ k) (ls : List Label)
+    (hl : ∀ l ∈ ls, PipeLabel l) (i j : Nat) :
+    let s := run (pinit cap k) ls
+    s.ring.bad = [] ∧ s.ring.outs = s.ring.log.take s.ring.hcount ∧
+    (holdsPush (s.pp i) = true → holdsPush (s.pp j) = true → i = j) ∧
+    (holdsPopP (s.pp i) = true → holdsPopR s.rp = false) := by
+  have h := pipe_invariant cap k h0 h1 ls hl
+  refine ⟨h.ring.noBad, h.ring.outsEq, fun a b => ?_, fun a => ?_⟩
+  · have := (h.l.plockIff i).1 a; have := (h.l.plockIff j).1 b; simp_all
+  · have := (h.l.poplockP i).1 a
+    cases hc : holdsPopR (run (pinit cap k) ls).rp with
+    | false => rfl
+    | true => have := h.l.poplockR.1 hc; simp_all
+
+/-- **pipe_no_slot_race**: the producer about to write a slot is the only writer, no producer is
+reading, and the receiver, if about to read, addresses a different slot. -/
+theorem pipe_no_slot_race (cap k : Nat) (h0 : 0 < cap) (h1 : 2 * cap ≤ 2 ^ k) (ls : List Label)
+    (hl : ∀ l ∈ ls, PipeLabel l) (i tl v : Nat) (c : Ctx) (rest : List Nat)
+    (hw : (run (pinit cap k) ls).pp i = .push c v rest (.write tl)) :
+    (∀ j c' v' rest' tl', (run (pinit cap k) ls).pp j = .push c' v' rest' (.write tl') → j = i) ∧
+    (∀ j v' rest' hl', (run (pinit cap k) ls).pp j ≠ .pop v' rest' (.read hl')) ∧
+    (∀ cl hl', (run (pinit cap k) ls).rp = .pop cl (.read hl') →
+      (run (pinit cap k) ls).ring.idx tl ≠ (run (pinit cap k) ls).ring.idx hl') :=
+  pipe_no_slot_race_of_inv _ (pipe_invariant cap k h0 h1 ls hl) i tl v c rest hw
+
+/-- **pipe_no_dup_no_reorder** + conservation for the pipeline pair: what `pop` handed out (a prefix
+of the pushed values) is an interleaving of what `recv` returned and what drop-oldest discarded;
+the received samples are a subsequence of the pushed ones. -/
+theorem pipe_no_dup_no_reorder (cap k : Nat) (h0 : 0 < cap) (h1 : 2 * cap ≤ 2 ^ k) (ls : List Label)
+    (hl : ∀ l ∈ ls, PipeLabel l) :
+    let s := run (pinit cap k) ls
+    Interleave s.recvd s.droppedOld (s.ring.log.take s.ring.hcount) ∧ List.Sublist s.recvd s.ring.log := by
+  intro s
+  have hg : GInv s := run_GInv _ ls (GInv.init _ cap (2 ^ k))
+  have ho := (pipe_invariant cap k h0 h1 ls hl).ring.outsEq
+  unfold GInv at hg
+  rw [ho] at hg
+  exact ⟨hg, hg.sub_left.trans (List.take_sublist _ _)⟩
+
+/-- non-vacuity for the pipeline pair: two producers on the shared sender, capacity 1 (the second
+send overflows: drop-oldest), the receiver gets the newer sample -/
+example :
+    let s := run (pinit 1 64) ([.prod 0 (some (.cloneTo 1)), .prod 0 none, .prod 0 (some (.send [1]))] ++
+      List.replicate 7 (.prod 0 none) ++ [.prod 1 (some (.send [2]))] ++ List.replicate 15 (.prod 1 none) ++
+      [.rcv (some .recv)] ++ List.replicate 6 (.rcv none))
+    s.recvd = [(1, 2)] ∧ s.droppedOld = [(0, 1)] ∧ s.ring.bad = [] := by
   refine ⟨by decide, by decide, by decide⟩
 
 /-! ### auxiliary: witnesses about SUPERSEDED code versions (why the fixes were needed) -/
